@@ -673,6 +673,9 @@ func (s *Module) AddContractStorageItems(kvs []storage.KeyValue) error {
 }
 
 func (s *Module) restoreNode(n mpt.Node) error {
+	if n.Type() == mpt.EmptyT {
+		return errors.New("unexpected EmptyNode in MPT data")
+	}
 	nPaths, ok := s.mptpool.TryGet(n.Hash())
 	if !ok {
 		// it can easily happen after receiving the same data from different peers.
